@@ -102,107 +102,256 @@ Proof.
   - intros H. repeat split; nia.
 Qed.
 
-(* ---------- histories with capacity ---------- *)
+(* ---------- totality of the guards: when the wrappers DO enter their kernel ---------- *)
 
-Definition cinv (s : cstate) : Prop := hwf (c_h s) /\ hSR (c_h s) <= c_scap s.
+Lemma score_guard_total ranged p body :
+  pM p <> 0 -> pM p - 1 <= pwrap p -> pM p <= pL p -> pa p < pb p -> pb p + pM p - 1 <= pSR p ->
+  score_guard ranged p body = Ok (Entered (body tt)).
+Proof.
+  intros H0 Hw HL Hab Hr. unfold score_guard.
+  assert (E0 : (pM p =? 0) = false) by (apply Z.eqb_neq; exact H0). rewrite E0.
+  assert (E1 : (pwrap p <? pM p - 1) = false) by (apply Z.ltb_ge; lia). rewrite E1.
+  assert (E2 : ((pL p <? pM p) || (pb p <=? pa p)) = false).
+  { apply orb_false_iff. split; [apply Z.ltb_ge | apply Z.leb_gt]; lia. }
+  rewrite E2.
+  assert (E3 : (pSR p <? pb p + pM p - 1) = false) by (apply Z.ltb_ge; lia). rewrite E3, andb_false_r.
+  reflexivity.
+Qed.
+
+(* ---------- histories with the allocations ---------- *)
+
+(* the sequence matrix holds the rows of the sequence and the wrap rows *)
+Definition seq_shape (h : hstate) : Prop := (hL h + 31) / 32 + hwrap h <= hSR h.
+
+(* the invariant carried along a history: usize values, every matrix inside its allocation, shape of the sequence *)
+Definition cinv (s : cstate) : Prop :=
+  hwf (c_h s) /\ hSR (c_h s) <= c_scap s /\ hFR (c_h s) <= c_fcap s /\ hUR (c_h s) <= c_ucap s /\
+  seq_shape (c_h s).
 
 Definition cop_wf (o : cop) : Prop :=
   match o with
   | CBase o _ => hop_wf o
-  | CCloneSeq => True
+  | CCloneSeq | CCloneScores => True
   | CNewSeq rows L _ => 0 <= rows /\ 0 <= L
   end.
+
+(* an event is fine: every access inside the OWNED rows and aligned, and the owned rows inside the allocation *)
+Definition cev_ok (ce : cev) : Prop :=
+  ev_safe (ce_ev ce) /\ forall b, ev_ext (ce_ev ce) b <= ce_alloc ce b.
 
 Ltac destruct_matches :=
   repeat match goal with
   | |- context [match ?x with _ => _ end] => destruct x
   end.
 
+Lemma cap_after_holds rows0 cap rows1 nc : rows1 <= cap_after rows0 cap rows1 nc.
+Proof.
+  unfold cap_after. pose proof (cb_resize_fits (mkCB rows0 cap) rows1 nc) as H.
+  rewrite cb_resize_rows in H. exact H.
+Qed.
+
+Lemma cap_after_same rows0 cap nc : rows0 <= cap -> cap_after rows0 cap rows0 nc = cap.
+Proof. intros H. unfold cap_after. rewrite cb_resize_keeps; [reflexivity | exact H]. Qed.
+
 Section CapProofs.
   Variables K pstF pstU : Z.
   Hypothesis HF : layout_ok 4 K pstF.
   Hypothesis HU : layout_ok 1 K pstU.
 
-  (* only striping, sampling and configuring change the row count of the sequence matrix *)
-  Lemma hstep_keeps_SR s o :
-    match o with
-    | HStripe _ | HSample _ | HConfigure _ => True
-    | _ => hSR (fst (hstep K pstF pstU s o)) = hSR s
-    end.
-  Proof. destruct o; try exact I; unfold hstep; destruct_matches; reflexivity. Qed.
+  Notation hstep' := (hstep K pstF pstU).
 
+  (* which ops touch which part of the state *)
+  Lemma hstep_frame s o :
+    (match o with
+     | HStripe _ | HSample _ | HConfigure _ => True
+     | _ => hSR (fst (hstep' s o)) = hSR s /\ hL (fst (hstep' s o)) = hL s /\ hwrap (fst (hstep' s o)) = hwrap s
+     end) /\
+    (match o with HScoreF32 _ _ _ | HResize _ _ => True | _ => hFR (fst (hstep' s o)) = hFR s end) /\
+    (match o with HScoreU8 _ _ _ | HResize _ _ => True | _ => hUR (fst (hstep' s o)) = hUR s end).
+  Proof.
+    destruct o; unfold hstep; repeat split; try exact I; destruct_matches; reflexivity.
+  Qed.
+
+  Lemma hstep_seq_shape s o : seq_shape s -> seq_shape (fst (hstep' s o)).
+  Proof.
+    intros Hs. pose proof (hstep_frame s o) as [Hfr _]. unfold seq_shape in *.
+    destruct o; try (destruct Hfr as [-> [-> ->]]; exact Hs).
+    - (* stripe *)
+      destruct a; unfold hstep; cbn [fst set_seq hL hwrap hSR]; unfold gstripe_rows, stripe_rows;
+        replace (32 - 1) with 31 by reflexivity; lia.
+    - (* sample *)
+      unfold hstep; cbn [fst set_seq hL hwrap hSR]. unfold sample_rows.
+      replace (L + 32 - 1) with (L + 31) by lia. lia.
+    - (* configure *)
+      unfold hstep, configure_wrap_model. destruct (hwrap s <? m) eqn:E; cbn [fst set_seq hL hwrap hSR].
+      + apply Z.ltb_lt in E. lia.
+      + exact Hs.
+  Qed.
+
+  (* extents of the events: the matrices named by the state *)
   Lemma score_f32_event_ext s a lo hi e :
-    In e (snd (hstep K pstF pstU s (HScoreF32 a lo hi))) -> ev_ext e B_SRC = hSR s * 32.
+    In e (snd (hstep' s (HScoreF32 a lo hi))) ->
+    ev_ext e B_SRC = hSR s * 32 /\ ev_ext e B_DST = hFR (fst (hstep' s (HScoreF32 a lo hi))) * 32 * 4.
   Proof.
     unfold hstep. destruct a;
       match goal with |- context [match ?x with _ => _ end] => destruct x as [[|accs]| | |] end;
-      simpl; try tauto; intros [<-|[]]; reflexivity.
+      simpl; try tauto; intros [<-|[]]; split; reflexivity.
   Qed.
 
   Lemma score_u8_event_ext s a lo hi e :
-    In e (snd (hstep K pstF pstU s (HScoreU8 a lo hi))) -> ev_ext e B_SRC = hSR s * 32.
+    In e (snd (hstep' s (HScoreU8 a lo hi))) ->
+    ev_ext e B_SRC = hSR s * 32 /\ ev_ext e B_DST = hUR (fst (hstep' s (HScoreU8 a lo hi))) * 32 * 1.
   Proof.
     unfold hstep. destruct a;
       match goal with |- context [match ?x with _ => _ end] => destruct x as [[|accs]| | |] end;
-      simpl; try tauto; intros [<-|[]]; reflexivity.
+      simpl; try tauto; intros [<-|[]]; split; reflexivity.
   Qed.
 
-  Lemma widen_safe scap evs (SR : Z) :
-    SR <= scap ->
-    (forall e, In e evs -> ev_ext e B_SRC = SR * 32) ->
-    Forall ev_safe evs -> Forall ev_safe (map (widen_seq scap 32) evs).
+  Lemma max_f32_event_ext s o e :
+    (exists a, o = HArgmaxF32 a \/ o = HMaxF32 a) ->
+    In e (snd (hstep' s o)) -> ev_ext e B_SRC = hFR s * 32 * 4.
   Proof.
-    intros Hle Hext H. rewrite Forall_forall in *. intros e' He'. apply in_map_iff in He'.
-    destruct He' as [e [<- He]]. specialize (H e He). specialize (Hext e He).
-    unfold ev_safe, widen_seq in *. cbn [ev_ext ev_al ev_accs].
-    eapply safe_mono; [|exact H]. intros a _. cbn beta.
-    destruct (Nat.eqb (abuf a) B_SRC) eqn:E; [|lia].
-    apply Nat.eqb_eq in E. rewrite E, Hext. lia.
+    intros [a [->| ->]]; unfold hstep; destruct a; destruct_matches; simpl; try tauto; intros [<-|[]]; reflexivity.
+  Qed.
+
+  Lemma max_u8_event_ext s o e :
+    (exists a, o = HArgmaxU8 a \/ o = HMaxU8 a) ->
+    In e (snd (hstep' s o)) -> ev_ext e B_SRC = hUR s * 32 * 1.
+  Proof.
+    intros [a [->| ->]]; unfold hstep; destruct a; destruct_matches; simpl; try tauto; intros [<-|[]]; reflexivity.
+  Qed.
+
+  Lemma stripe_event_ext s o e :
+    (exists a, o = HStripe a) \/ (exists L, o = HSample L) ->
+    In e (snd (hstep' s o)) -> ev_ext e B_DST = hSR (fst (hstep' s o)) * 32.
+  Proof.
+    intros [[a ->]|[L ->]]; unfold hstep.
+    - destruct a; simpl; intros [<-|[]]; reflexivity.
+    - simpl. intros [<-|[]]. simpl. unfold ext_dense. simpl. lia.
+  Qed.
+
+  Lemma map_cev_ok (f : fp_event -> nat -> Z) evs :
+    Forall ev_safe evs -> (forall e b, In e evs -> ev_ext e b <= f e b) ->
+    Forall cev_ok (map (fun e => mkCE e (f e)) evs).
+  Proof.
+    intros Hs Hle. rewrite Forall_forall in *. intros ce Hce. apply in_map_iff in Hce.
+    destruct Hce as [e [<- He]]. split; cbn [ce_ev ce_alloc]; [apply Hs; exact He | intros b; apply Hle; exact He].
   Qed.
 
   Lemma cstep_safe s o :
     cinv s -> cop_wf o ->
-    cinv (fst (cstep K pstF pstU s o)) /\ Forall ev_safe (snd (cstep K pstF pstU s o)).
+    cinv (fst (cstep K pstF pstU s o)) /\ Forall cev_ok (snd (cstep K pstF pstU s o)).
   Proof.
-    intros [Hw Hc] Ho. destruct o as [o nc | | rows L nc].
+    intros (Hw & Hsc & Hfc & Huc & Hsh) Ho. destruct o as [o nc | | | rows L nc].
     - simpl in Ho. unfold cstep.
       pose proof (hstep_safe K pstF pstU HF HU (c_h s) o Hw Ho) as [Hw' Hev].
-      pose proof (hstep_keeps_SR (c_h s) o) as HSR.
+      pose proof (hstep_frame (c_h s) o) as (Hfr1 & Hfr2 & Hfr3).
+      pose proof (hstep_seq_shape (c_h s) o Hsh) as Hsh'.
       pose proof (score_f32_event_ext (c_h s)) as HeF. pose proof (score_u8_event_ext (c_h s)) as HeU.
+      pose proof (max_f32_event_ext (c_h s) o) as HmF. pose proof (max_u8_event_ext (c_h s) o) as HmU.
+      pose proof (stripe_event_ext (c_h s) o) as HsE.
       destruct (hstep K pstF pstU (c_h s) o) as [h' evs] eqn:E. cbn [fst snd] in *.
-      destruct o; cbn [fst snd]; unfold cinv; cbn [c_h c_scap];
-        try (split; [split; [exact Hw' | lia] | exact Hev]).
+      destruct o; cbn [fst snd]; unfold cinv; cbn [c_h c_scap c_fcap c_ucap].
+      + (* encode *)
+        destruct Hfr1 as (-> & _ & _). rewrite Hfr2, Hfr3.
+        split; [refine (conj Hw' (conj _ (conj _ (conj _ Hsh')))); lia|]. apply map_cev_ok; auto. intros; lia.
+      + (* stripe *)
+        rewrite Hfr2, Hfr3. split; [refine (conj Hw' (conj _ (conj _ (conj _ Hsh')))); lia|].
+        apply map_cev_ok; auto. intros e b He. unfold alloc_of_stripe.
+        destruct (Nat.eqb b B_DST) eqn:Eb; [|lia]. apply Nat.eqb_eq in Eb. subst b.
+        rewrite (HsE e (or_introl (ex_intro _ a eq_refl)) He). lia.
+      + (* sample *)
+        rewrite Hfr2, Hfr3. split; [refine (conj Hw' (conj _ (conj _ (conj _ Hsh')))); lia|].
+        apply map_cev_ok; auto. intros e b He. unfold alloc_of_stripe.
+        destruct (Nat.eqb b B_DST) eqn:Eb; [|lia]. apply Nat.eqb_eq in Eb. subst b.
+        rewrite (HsE e (or_intror (ex_intro _ L eq_refl)) He). lia.
       + (* configure *)
-        split; [split; [exact Hw'|] | exact Hev].
-        pose proof (cb_resize_fits (mkCB (hSR (c_h s)) (c_scap s)) (hSR h') nc) as Hfit.
-        rewrite cb_resize_rows in Hfit. exact Hfit.
+        rewrite Hfr2, Hfr3. split; [refine (conj Hw' (conj _ (conj _ (conj _ Hsh')))); try lia; apply cap_after_holds|].
+        apply map_cev_ok; auto. intros; lia.
+      + (* motif *)
+        destruct Hfr1 as (-> & _ & _). rewrite Hfr2, Hfr3.
+        split; [refine (conj Hw' (conj _ (conj _ (conj _ Hsh')))); lia|]. apply map_cev_ok; auto. intros; lia.
       + (* f32 scoring *)
-        split; [split; [exact Hw' | lia]|].
-        apply (widen_safe (c_scap s) evs (hSR (c_h s))); auto.
-        intros e He. apply (HeF a lo hi). rewrite E. exact He.
+        destruct Hfr1 as (HSR & _ & _). rewrite Hfr3.
+        split; [refine (conj Hw' (conj _ (conj _ (conj _ Hsh')))); try lia; apply cap_after_holds|].
+        apply map_cev_ok; auto. intros e b He. unfold alloc_of_score.
+        destruct (HeF a lo hi e) as [H1 H2]; [rewrite E; exact He|]. rewrite E in H2. cbn [fst] in H2.
+        destruct (Nat.eqb b B_SRC) eqn:Eb.
+        * apply Nat.eqb_eq in Eb. subst b. rewrite H1. lia.
+        * destruct (Nat.eqb b B_DST) eqn:Eb2; [|lia]. apply Nat.eqb_eq in Eb2. subst b. rewrite H2.
+          pose proof (cap_after_holds (hFR (c_h s)) (c_fcap s) (hFR h') nc). lia.
       + (* u8 scoring *)
-        split; [split; [exact Hw' | lia]|].
-        apply (widen_safe (c_scap s) evs (hSR (c_h s))); auto.
-        intros e He. apply (HeU a lo hi). rewrite E. exact He.
-    - (* clone *)
-      simpl. split; [split; [exact Hw | simpl; lia] | constructor].
+        destruct Hfr1 as (HSR & _ & _). rewrite Hfr2.
+        split; [refine (conj Hw' (conj _ (conj _ (conj _ Hsh')))); try lia; apply cap_after_holds|].
+        apply map_cev_ok; auto. intros e b He. unfold alloc_of_score.
+        destruct (HeU a lo hi e) as [H1 H2]; [rewrite E; exact He|]. rewrite E in H2. cbn [fst] in H2.
+        destruct (Nat.eqb b B_SRC) eqn:Eb.
+        * apply Nat.eqb_eq in Eb. subst b. rewrite H1. lia.
+        * destruct (Nat.eqb b B_DST) eqn:Eb2; [|lia]. apply Nat.eqb_eq in Eb2. subst b. rewrite H2.
+          pose proof (cap_after_holds (hUR (c_h s)) (c_ucap s) (hUR h') nc). lia.
+      + (* resize *)
+        destruct Hfr1 as (-> & _ & _).
+        split; [refine (conj Hw' (conj _ (conj _ (conj _ Hsh')))); try lia; apply cap_after_holds|]. apply map_cev_ok; auto. intros; lia.
+      + (* argmax f32 *)
+        destruct Hfr1 as (-> & _ & _). rewrite Hfr2, Hfr3. split; [refine (conj Hw' (conj _ (conj _ (conj _ Hsh')))); lia|].
+        apply map_cev_ok; auto. intros e b He. unfold alloc_of_max.
+        destruct (Nat.eqb b B_SRC) eqn:Eb; [|lia]. apply Nat.eqb_eq in Eb. subst b.
+        rewrite (HmF e (ex_intro _ a (or_introl eq_refl)) He). lia.
+      + (* max f32 *)
+        destruct Hfr1 as (-> & _ & _). rewrite Hfr2, Hfr3. split; [refine (conj Hw' (conj _ (conj _ (conj _ Hsh')))); lia|].
+        apply map_cev_ok; auto. intros e b He. unfold alloc_of_max.
+        destruct (Nat.eqb b B_SRC) eqn:Eb; [|lia]. apply Nat.eqb_eq in Eb. subst b.
+        rewrite (HmF e (ex_intro _ a (or_intror eq_refl)) He). lia.
+      + (* argmax u8 *)
+        destruct Hfr1 as (-> & _ & _). rewrite Hfr2, Hfr3. split; [refine (conj Hw' (conj _ (conj _ (conj _ Hsh')))); lia|].
+        apply map_cev_ok; auto. intros e b He. unfold alloc_of_max.
+        destruct (Nat.eqb b B_SRC) eqn:Eb; [|lia]. apply Nat.eqb_eq in Eb. subst b.
+        rewrite (HmU e (ex_intro _ a (or_introl eq_refl)) He). lia.
+      + (* max u8 *)
+        destruct Hfr1 as (-> & _ & _). rewrite Hfr2, Hfr3. split; [refine (conj Hw' (conj _ (conj _ (conj _ Hsh')))); lia|].
+        apply map_cev_ok; auto. intros e b He. unfold alloc_of_max.
+        destruct (Nat.eqb b B_SRC) eqn:Eb; [|lia]. apply Nat.eqb_eq in Eb. subst b.
+        rewrite (HmU e (ex_intro _ a (or_intror eq_refl)) He). lia.
+    - (* clone of the sequence *)
+      simpl. split; [refine (conj Hw (conj _ (conj _ (conj _ Hsh)))); simpl; lia | constructor].
+    - (* clone of the score matrices *)
+      simpl. split; [refine (conj Hw (conj _ (conj _ (conj _ Hsh)))); simpl; lia | constructor].
     - (* new(DenseMatrix::new(rows), L) *)
-      destruct Ho as [Hr HL]. unfold cstep. destruct (rows * 32 <? L).
-      + split; [split; assumption | constructor].
-      + simpl. split; [|constructor]. split; [|simpl; lia].
-        destruct Hw as (?&?&?&?&?&?&?&?). unfold hwf, set_seq; simpl. lia.
+      destruct Ho as [Hr HL]. unfold cstep. destruct (rows * 32 <? L) eqn:E.
+      + split; [exact (conj Hw (conj Hsc (conj Hfc (conj Huc Hsh)))) | constructor].
+      + apply Z.ltb_ge in E. cbn [fst snd]. split; [|constructor].
+        unfold cinv. cbn [c_h c_scap c_fcap c_ucap].
+        assert (Hdiv : (L + 31) / 32 < rows + 1) by (apply Z.div_lt_upper_bound; lia).
+        destruct Hw as (?&?&?&?&?&?&?&?).
+        refine (conj _ (conj _ (conj _ (conj _ _)))); unfold hwf, seq_shape, set_seq; simpl; lia.
   Qed.
 
   Lemma ctrace_safe ops : forall s,
     cinv s -> Forall cop_wf ops ->
-    Forall ev_safe (ctrace K pstF pstU s ops) /\ cinv (cfinal K pstF pstU s ops).
+    Forall cev_ok (ctrace K pstF pstU s ops) /\ Forall cinv (cstates K pstF pstU s ops).
   Proof.
     induction ops as [|o r IH]; intros s Hs Ho; simpl.
-    - split; [constructor | exact Hs].
+    - split; [constructor | constructor; [exact Hs | constructor]].
     - inversion Ho as [|? ? Ho1 Ho2]; subst.
       destruct (cstep_safe s o Hs Ho1) as [Hs' Hev].
       destruct (cstep K pstF pstU s o) as [s' ev] eqn:E. simpl in Hs', Hev.
-      destruct (IH s' Hs' Ho2) as [Ht Hf]. split; [apply Forall_app; split; auto | exact Hf].
+      destruct (IH s' Hs' Ho2) as [Ht Hf]. split; [apply Forall_app; split; auto | constructor; auto].
+  Qed.
+
+  (* a sequence that was configured for the motif: the full-range call `score_into` passes every guard of the SIMD
+     wrappers and enters the kernel (uses the shape invariant: the matrix holds at least one sequence row) *)
+  Lemma configured_full_range_enters s :
+    hwf s -> seq_shape s -> 0 < hM s -> hM s <= hL s -> hM s - 1 <= hwrap s ->
+    let p := score_params K s pstU 0 (hSR s - hwrap s) in
+    wrap_score_u8_avx2 true p = Ok (Entered (fp_score_u8_avx2_shuffle p)) /\
+    wrap_score_sse2 true 32 (score_params K s pstF 0 (hSR s - hwrap s)) =
+      Ok (Entered (fp_score_sse2 32 (score_params K s pstF 0 (hSR s - hwrap s)))).
+  Proof.
+    intros (HE & HL & HSR & Hw & HM & _) Hsh HM0 HML Hwr. unfold seq_shape in Hsh.
+    assert (Hrows : 1 <= (hL s + 31) / 32) by (apply Z.div_le_lower_bound; lia).
+    cbv zeta. split.
+    - unfold wrap_score_u8_avx2. apply score_guard_total; unfold score_params; simpl; lia.
+    - unfold wrap_score_sse2. apply score_guard_total; unfold score_params; simpl; lia.
   Qed.
 
   (* right after a clone the allocation of the sequence matrix is exact, whatever came before *)
@@ -210,7 +359,7 @@ Section CapProofs.
     c_scap (fst (cstep K pstF pstU s CCloneSeq)) = hSR (c_h (fst (cstep K pstF pstU s CCloneSeq))).
   Proof. reflexivity. Qed.
 
-  (* a scoring call leaves the allocation alone *)
+  (* a scoring call leaves the allocation of the sequence alone *)
   Lemma score_keeps_cap s a lo hi nc :
     c_scap (fst (cstep K pstF pstU s (CBase (HScoreU8 a lo hi) nc))) = c_scap s /\
     c_scap (fst (cstep K pstF pstU s (CBase (HScoreF32 a lo hi) nc))) = c_scap s.
@@ -226,6 +375,6 @@ Section CapProofs.
     c_scap (fst (cstep K pstF pstU s (CBase (HConfigure m) nc))) = c_scap s.
   Proof.
     intros H. unfold cstep. destruct (hstep K pstF pstU (c_h s) (HConfigure m)) as [h' evs]. cbn [fst] in *.
-    cbn [c_scap]. rewrite cb_resize_keeps; [reflexivity | exact H].
+    cbn [c_scap]. unfold cap_after. rewrite cb_resize_keeps; [reflexivity | exact H].
   Qed.
 End CapProofs.
